@@ -114,6 +114,19 @@ func (Prop) Run(t *core.Tape, o core.RunOpts) *core.Result {
 		}
 		res.Probes.Inc("long_lived_run")
 	}
+	// and a very rare "marathon": one or two callers, more than 2^17 IDs (2^20 in the thorough
+	// tier, once in a while): thresholds that are round numbers of calls
+	if t.Bool(1, 16000) {
+		n = 1 + t.Choose(2)
+		total := 131100 + t.Choose(9000)
+		if o.Tier == "thorough" && t.Bool(1, 8) {
+			total = 1048600 + t.Choose(9000)
+		}
+		calls = total / n
+		strategy = sched.SRunToBlock
+		entropy = vrand.EUniform
+		res.Probes.Inc("marathon_run")
+	}
 	budget := int64(n*calls)*400 + 20000 // only there to end livelocks
 	salt := t.Word()
 	arrive := make([]int64, n)
